@@ -37,6 +37,11 @@ class Twin(object):
         self.points = set(scn.get("restore_points") or [])
         self.n = 0
         self.restores = 0
+        if 0 in self.points:
+            # persisted before anything else was called: the first API call on a fresh conductor is serialize()
+            s0 = json.loads(json.dumps(self.b.c.serialize()))
+            self.b.c = conducting.WorkflowConductor.deserialize(s0)
+            self.restores += 1
         self.live_restore = False
         self.calls_after_last = 0
 
@@ -114,12 +119,12 @@ def run(scn, stats):
     stats.label("status:" + drv.status(), "restores:%d" % min(tw.restores, 3))
     if tw.live_restore:
         stats.label("restore-with-live-items/retry/join")
-    if tw.restores >= 2 and tw.live_restore and tw.calls_after_last >= 3:
+    if tw.restores >= 2 and (tw.live_restore or 0 in tw.points) and tw.calls_after_last >= 2:
         stats.mark_nontrivial(scn)
         stats.sample({"definition": defn, "restore_points": sorted(tw.points), "history": common.history_summary(r, 40)})
 
 
-CFG = gen.cfg(items=0.2, retry=0.2, p_loop=0.3, retry_cmd=True)
+CFG = gen.cfg(items=0.2, retry=0.2, p_loop=0.3, retry_cmd=True, bad_vars=0.08)
 FLAGS = {"pause": 1, "cancel": 1, "pending": 1}
 
 
@@ -128,7 +133,7 @@ def strategy(tier):
     return st.builds(
         lambda s, pts, rr: dict(s, restore_points=sorted(pts), rerun=rr),
         base,
-        st.sets(st.integers(1, 60), min_size=1, max_size=12),
+        st.sets(st.integers(0, 40), min_size=1, max_size=12),
         st.booleans(),
     )
 
